@@ -49,6 +49,7 @@ void harness(void)
     ObjectHeaderBase_read(&o, &is);
     __CPROVER_assert(vb_exc == 0 || (vb_exc == VB_EXC_BLF && (is.rdstate & IOS_eofbit) != 0), "C09/ObjectHeaderBase/read/exception-only-at-end-of-stream");
     __CPROVER_assert(is.g >= g0 && is.g <= len, "C09/ObjectHeaderBase/read/position-between-start-and-declared-end");
+    __CPROVER_assert(is.rdstate == 0 || is.g == len, "C09/ObjectHeaderBase/read/a-cut-short-read-has-consumed-the-stream-to-its-declared-end");
     if (vb_exc == 0 && is.rdstate == 0) {
         int64_t found = is.g - 16;
         __CPROVER_assert(found >= g0, "C09/ObjectHeaderBase/read/consumes-filler-plus-one-16-byte-base-header");
@@ -71,7 +72,7 @@ void harness(void)
                             're:decreases clause': 'C09/ObjectHeaderBase/read/resync-loop-terminates-(every-iteration-advances)',
                             're:loop instrumentation': 'C09/ObjectHeaderBase/read/loop-instrumentation-complete',
                             're:assignable|Check that .* is assignable': 'C09/ObjectHeaderBase/read/resync-loop-frame'},
-                    canary_ids=['harness.assertion.11', 'harness.assertion.12'],
+                    canary_ids=['harness.assertion.12', 'harness.assertion.13'],
                     expect_kinds=[r'loop invariant before entry', r'loop invariant is preserved', r'decreases clause'])
 
 
